@@ -89,7 +89,8 @@ StepDoc(st, tok) ==
             IF ~(j > f.idx \/ (IsList(a) /\ f.plist)) THEN Rej(st, "order")
             ELSE IF ~IsList(a) /\ a.a \in f.keys THEN Rej(st, "duplicate")
             ELSE LET f2 == [f EXCEPT !.idx = j, !.plist = IsList(a),
-                                     !.seen = IF a.k = "unsup" \/ IsList(a) THEN @ ELSE @ \cup {a.a},
+                                     \* (a repeated aggregate child counts as present for the exclusivity groups once a member was met)
+                                     !.seen = IF a.k \in {"unsup", "lelem"} THEN @ ELSE @ \cup {a.a},
                                      !.keys = IF IsList(a) THEN @ ELSE @ \cup {a.a}]
                      st2 == [st EXCEPT !.stack[Len(st.stack)] = f2] IN
                  CASE a.k = "unsup" -> [st2 EXCEPT !.skip = IF tok.e = "open" THEN 1 ELSE 0]
